@@ -150,6 +150,7 @@ type readSpec struct {
 	S, E   *uint64
 	Form   string `json:"form"`
 	MdCb   bool   `json:"mdcb"`
+	Stream bool   `json:"stream"` // the Reader is built over a source that cannot seek
 }
 
 // doRead performs one read with a fresh Reader and renders it.
@@ -192,7 +193,11 @@ func doReadOn(d *fileDesc, rs readSpec, shared *mcap.Reader) wl.Ev {
 		reader := shared
 		if reader == nil {
 			var err error
-			reader, err = mcap.NewReader(bytes.NewReader(d.bytes))
+			var src io.Reader = bytes.NewReader(d.bytes)
+			if rs.Stream {
+				src = struct{ io.Reader }{src}
+			}
+			reader, err = mcap.NewReader(src)
 			if err != nil {
 				end, why = "openerror", err.Error()
 				return
@@ -259,6 +264,7 @@ func doReadOn(d *fileDesc, rs readSpec, shared *mcap.Reader) wl.Ev {
 	e["mds"] = mds
 	e["indexed"] = usedIndex
 	e["mdsMatch"] = mdsMatch
+	e["stream"] = rs.Stream
 	return e
 }
 
@@ -995,9 +1001,10 @@ func irun(args []string) error {
 				continue
 			}
 			var x struct {
-				Flags map[string]bool `json:"flags"`
-				Shape string          `json:"shape"`
-				Pred  map[string]struct {
+				Flags    map[string]bool `json:"flags"`
+				Shape    string          `json:"shape"`
+				Seekable *bool           `json:"seekable"`
+				Pred     map[string]struct {
 					Class string `json:"class"`
 					Via   string `json:"via"`
 				} `json:"pred"`
@@ -1031,10 +1038,14 @@ func irun(args []string) error {
 			tr := wl.NewTrace()
 			tr.Add(wl.Ev{"ev": "Run", "id": w.ID})
 			tr.Add(d.ev)
-			tr.Add(infoEvent(d))
+			stream := x.Seekable != nil && !*x.Seekable
+			if !stream {
+				tr.Add(infoEvent(d)) // (Info needs a source that can seek)
+			}
 			var specs []readSpec
 			for _, m := range []string{"default", "idxfile", "idxlog", "scan"} {
 				rs := map[string]readSpec{"default": {Mode: "default"}, "idxfile": {Mode: "index", Order: "file"}, "idxlog": {Mode: "index", Order: "log"}, "scan": {Mode: "scan"}}[m]
+				rs.Stream = stream
 				specs = append(specs, rs)
 				e := doRead(d, rs)
 				e["predClass"], e["predVia"], e["dmode"] = x.Pred[m].Class, x.Pred[m].Via, m
